@@ -69,6 +69,24 @@ enum Op {
     PanicSync,
     NestedSync,
     Sleep,
+    /// a future operation that wakes itself during its first poll (yield-style), awaited
+    YieldAwait,
+    /// the same, detached
+    YieldDetach,
+}
+
+/// Wakes its own waker during the first poll and returns Pending once
+fn yield_now() -> impl Future<Output = ()> {
+    let mut yielded = false;
+    futures::future::poll_fn(move |cx| {
+        if yielded {
+            std::task::Poll::Ready(())
+        } else {
+            yielded = true;
+            cx.waker().wake_by_ref();
+            std::task::Poll::Pending
+        }
+    })
 }
 
 static HOOK: Once = Once::new();
@@ -115,7 +133,7 @@ fn run_program(s: &mut Src) {
         let mut p = vec![];
         for _ in 0..n {
             let o = s.below(nobj);
-            let k = s.below(if allow_panic { 13 } else { 11 });
+            let k = s.below(if allow_panic { 15 } else { 13 });
             let op = match k {
                 0 => Op::Desync,
                 1 => Op::Sync,
@@ -128,7 +146,9 @@ fn run_program(s: &mut Src) {
                 8 => Op::Release,
                 9 => Op::NestedSync,
                 10 => Op::Sleep,
-                11 => Op::PanicDesync,
+                11 => Op::YieldAwait,
+                12 => Op::YieldDetach,
+                13 => Op::PanicDesync,
                 _ => Op::PanicSync,
             };
             p.push((op, o));
@@ -242,6 +262,30 @@ fn run_program(s: &mut Src) {
                         }
                     }
                     Op::Sleep => std::thread::sleep(Duration::from_micros(50)),
+                    Op::YieldAwait => {
+                        let f = h.future_desync(move |p| {
+                            async move {
+                                p.touch(tag);
+                                yield_now().await;
+                                p.touch(tag);
+                                tag
+                            }
+                            .boxed()
+                        });
+                        let r = block_on(f);
+                        assert!(r == Ok(tag) || is_poisoned(), "DV-ASAN canary: future_desync (yielding) resolved to {:?}", r);
+                    }
+                    Op::YieldDetach => {
+                        h.future_desync(move |p| {
+                            async move {
+                                p.touch(tag);
+                                yield_now().await;
+                                p.touch(tag);
+                            }
+                            .boxed()
+                        })
+                        .detach();
+                    }
                     Op::PanicDesync => {
                         poisoned[o].store(true, Ordering::SeqCst);
                         h.desync(move |p| {
